@@ -48,7 +48,17 @@ ImportCase(v, px, f, ks, e, sid, sub, two) ==
                            Rin(<<24, 8, 16>>, <<4, -4, 1>>, <<1, 1, 2>>, 17, 1308, 3 - sub, 3, v, px)>>
              ELSE <<Rin(<<16, 24, 40>>, ks, e, 3, sid, sub, 2, v, px)>>]
 
-Start == rel = <<>> /\ back = <<>> /\ pc = "start" /\ op = "init" /\ cid = 0
+\* import, clean / re-order, export with the original entries, import again.  shape 1: untouched; 2: the first particle
+\* removed by its class; 3: the two particles swapped
+OrigCase(v, f, e, sid, sub, shape) ==
+    [mode |-> "orig", v |-> v, px |-> <<27, 20>>, fmt |-> f,
+     rin |-> <<Rin(<<16, 24, 40>>, <<-9, 4, 24>>, e, 3, sid, sub, 2, v, <<27, 20>>),
+               Rin(<<24, 8, 16>>, <<4, -4, 1>>, <<1, 1, 2>>, 17, 1308, 3 - sub, 3, v, <<27, 20>>)>>,
+     hist |-> CASE shape = 1 -> <<>>
+                [] shape = 2 -> <<[op |-> "remove", cls |-> 2, idx |-> <<>>]>>
+                [] shape = 3 -> <<[op |-> "select", cls |-> 0, idx |-> <<2, 1>>]>>]
+
+Start == rel = <<>> /\ back = <<>> /\ pc = "start" /\ op = "init" /\ cid = 0 /\ live = <<>>
 
 \* (formats only make sense with their version family)
 MCInit(quick) ==
@@ -58,6 +68,8 @@ MCInit(quick) ==
               cs = ImportCase(v, px, Plain, ks, e, sid, sub, two)
        \/ \E v \in {30, 31, 40} : \E f \in Formats(v, quick) \ {Plain} : \E px \in PxSet, e \in Triples, sid \in {7, 12}, sub \in {1, 2} :
               cs = ImportCase(v, px, f, <<-9, 4, 24>>, e, sid, sub, TRUE)
+       \/ \E v \in {30, 31, 40} : \E f \in Formats(v, quick) : \E e \in Triples, sid \in {7, 12}, sub \in {1, 2}, shape \in 1..3 :
+              cs = OrigCase(v, f, e, sid, sub, shape)
     /\ Start
 
 QuickInit == MCInit(TRUE)
